@@ -65,7 +65,7 @@ Next ==
     \/ \E x \in PubSet : Cardinality(InUse) < MaxId /\ Publish(a, x)
     \/ \E s \in SubSet : Cardinality(InUse) < MaxId /\ Subscribe(a, s[1], s[2])
     \/ \E u \in UnsubSet : Cardinality(InUse) < MaxId /\ Unsubscribe(a, u)
-    \/ \E p \in InSet : Deliver(a, p)
+    \/ \E p \in InSet : conn[a].tr \in {"open", "closing"} /\ Deliver(a, p)     \* A2
     \/ Lost(a, "ConnectionDone")
     \/ \E tm \in timers : tm.a = a /\ FireTimer(tm)
 Spec == Init /\ [][Next]_vars
